@@ -60,7 +60,7 @@ SBind(c) == [k |-> "Bind", c |-> c, h |-> 0, rd |-> FALSE]
 SEst(h, rd) == [k |-> "Est", c |-> 0, h |-> h, rd |-> rd]
 
 NoObs == [res |-> "", n |-> 0, w |-> 0, off |-> 0, h |-> 0, id |-> 0, host |-> "", port |-> 0,
-          bt |-> 0, data |-> "", sent |-> <<>>, rcv |-> NoMsg, wake |-> {}, ack |-> 0]
+          bt |-> 0, data |-> "", sent |-> <<>>, rcv |-> NoMsg, wake |-> {}, ack |-> 0, hold |-> {}]
 
 (* handle = a MuxStream plus the state it shares with its flow slot *)
 NewHandle(id, credit, thr, host, port, conn, role) ==
@@ -93,6 +93,7 @@ InitState(cfg) ==
    task   |-> [e \in E |-> [ph |-> "run", drain |-> FALSE, res |-> ""]],
    rxblk  |-> [e \in E |-> [k |-> "none", h |-> 0, m |-> NoMsg]],
    calls  |-> [e \in E |-> <<>>],        \* function call id -> call record
+   br     |-> [e \in E |-> <<>>],        \* bridges (Bridge.tla): stream handles driven by copy_bidirectional
    mux    |-> [e \in E |-> TRUE],
    wire   |-> [e \in E |-> <<>>],
    sink   |-> [e \in E |-> "open"],      \* "open" | "cut" | "closed"
